@@ -1,0 +1,32 @@
+//go:build verif
+
+package mqtt
+
+import "sync/atomic"
+
+// VerifYieldFunc, when set, is invoked at named points in between I/O
+// boundaries. Verification harnesses use it to park a goroutine there.
+var verifYieldFunc atomic.Pointer[func(point string)]
+
+// VerifSetYield installs (or clears with nil) the yield callback.
+func VerifSetYield(f func(point string)) {
+	if f == nil {
+		verifYieldFunc.Store(nil)
+		return
+	}
+	verifYieldFunc.Store(&f)
+}
+
+func verifYield(point string) {
+	if f := verifYieldFunc.Load(); f != nil {
+		(*f)(point)
+	}
+}
+
+// VerifSetReadBufSize replaces the read-buffer size for Clients connecting
+// hereafter. It returns the previous value.
+func VerifSetReadBufSize(n int) (old int) {
+	old = readBufSize
+	readBufSize = n
+	return old
+}
